@@ -83,7 +83,13 @@ PANIC_CALLS = _re.compile(r'ops::Index>::index$|ops::IndexMut>::index_mut$|Optio
                           r'panicking::|slice::index::|str::slice_error|Result::unwrap_err$|Option::unwrap_unchecked$|RefCell.*::borrow')
 
 
-def panic_sites(body, blocks=None):
+def debug_only(term):
+    """the site was produced by a debug_assert*! expansion: compiled out of release builds (the shipped wheel); such
+    sites are counted in the evidence but not treated as panic sites of the property"""
+    return 'debug_assert' in (term.span.get('macs') or '')
+
+
+def panic_sites(body, blocks=None, include_debug=False):
     """explicit panic sites among the given blocks (default: all reachable): [(term, description)]"""
     out = []
     for b in body.blocks:
@@ -92,6 +98,8 @@ def panic_sites(body, blocks=None):
         if blocks is not None and b.idx not in blocks:
             continue
         t = b.term
+        if not include_debug and debug_only(t):
+            continue
         if t.kind == 'assert':
             out.append((t, 'assert ' + t.msg['k'] + (':' + t.msg.get('op', '') if 'op' in t.msg else '')))
         elif t.kind == 'call':
